@@ -12,6 +12,18 @@ PROPS = {
                  "variant copy/clear discipline of Var.c. Says nothing about printf rendering, file bytes or the engine's punch order.",
          "note": "Trusted: CBMC 6.11 and its C library models; Var.c read as C. String-content units (VarAllocString, VarCopy with a string source) are "
                  "bounded by VERIF_MAXN and listed under bounded_units, not counted in obligations/discharged."},
+ "C01": {"claimed": True, "engine": "B", "level": "proof",
+         "technique": "own VC generator over clang AST + exact polynomial normalisation (sympy) / z3",
+         "text": "Function contract on Phreeqc::k_calc: for all T>0, P and log K coefficient arrays the result is the database expression "
+                 "(van 't Hoff + analytical expression + molar-volume pressure term); the difference code - specification normalises to 0 exactly. "
+                 "The fixed point of the Newton solver (mass action / mole balance at convergence for every input and database) is NOT decided.",
+         "note": "Doubles read as mathematical reals; log10 uninterpreted; astvc (vf/astvc) and clang's AST are trusted. Partial claim: only the named function-level facts."},
+ "C13": {"claimed": True, "engine": "B", "level": "proof",
+         "technique": "own VC generator over clang AST: symbolic execution with ghost call trace, z3",
+         "text": "Generated forwarding contract for every extern \"C\" function of IPhreeqcLib.cpp (same-named method, receiver = instance of id, arguments in order, "
+                 "documented result translation, nothing called on a bad id) and every *F function of IPhreeqc_interface_F.cpp (same-named C function, *id, documented -1 shifts, "
+                 "padfstring on the result). All paths, all argument values.",
+         "note": "GetInstance assumed pure (own unit). Behaviour of the forwarded-to methods is outside these units. astvc and clang's AST trusted."},
  "C06": {"na_reason": "quantifies over thread schedules and bitwise reproducibility; code contracts and the VC generator are sequential and read doubles as reals; "
                       "the sequential remainder (unique ids, lock bracketing) belongs to C13 and says nothing about races"},
 }
